@@ -141,7 +141,7 @@ def homogeneity(e: ast.expr, env: Dict[str, object], defs: Dict[str, ast.expr], 
     if isinstance(e, ast.Attribute):
         if e.attr in ("pi", "TOL", "VSMALL", "VBIG"):
             return 0
-        if e.attr in ("position", "center", "origin", "point", "points", "positions"):
+        if e.attr in ("position", "center", "origin", "point", "points", "positions", "point_array"):
             return 1
         if e.attr in ("length", "radius"):
             return 1
@@ -255,7 +255,7 @@ def scale_free_comparison_rule(repo: Repo, prop: str, rule_id: str, functions, a
     return r
 
 
-def perpendicular_guards_rule(repo: Repo, prop: str, rule_id: str, module_prefixes=("construct.",), floor: int = 3) -> RuleRun:
+def perpendicular_guards_rule(repo: Repo, prop: str, rule_id: str, module_prefixes=("construct.",), floor: int = 3, words=("perpendicular",), example: str = "") -> RuleRun:
     """'radius vectors not perpendicular to the axis [are rejected] in either direction' - for a shape of any size: the guards that
     raise '... not perpendicular' compare a cosine-like quantity. The homogeneity degree of both sides is followed through the
     constructor (parameters of point / vector type have degree 1, normalised vectors 0, products add): a dot product of two
@@ -272,14 +272,14 @@ def perpendicular_guards_rule(repo: Repo, prop: str, rule_id: str, module_prefix
         guards = [
             st
             for st in ast.walk(fn.node)
-            if isinstance(st, ast.If) and any(isinstance(b, ast.Raise) and "perpendicular" in ast.unparse(b).lower() for b in st.body)
+            if isinstance(st, ast.If) and any(isinstance(b, ast.Raise) and any(w in ast.unparse(b).lower() for w in words) for b in st.body)
         ]
         if not guards:
             continue
         env: Dict[str, object] = {}
         for a in fn.node.args.args:
             ann = ast.unparse(a.annotation) if a.annotation is not None else ""
-            if any(t in ann for t in ("PointType", "VectorType")):
+            if any(t in ann for t in ("PointType", "VectorType", "PointListType")):
                 env[a.arg] = 1
             elif ann == "float" and any(k in a.arg for k in ("radius", "length", "size", "width", "height", "thickness")):
                 env[a.arg] = 1
@@ -310,9 +310,10 @@ def perpendicular_guards_rule(repo: Repo, prop: str, rule_id: str, module_prefix
                                 diff is None or diff in (0, 1),
                                 fn,
                                 f"'{ast.unparse(node)[:50]}': degrees {a_} vs {b_}",
-                                f"{fn.qualname}: the perpendicularity guard '{ast.unparse(node)[:70]}' compares a quantity that scales with the shape's size to the power {a_} against one of power {b_} "
-                                "(the dot product of two un-normalised vectors against the plain tolerance): a millimetre-sized shape whose radius vector leans by tens of degrees is accepted and built distorted - "
-                                "Cylinder([0,0,0],[1e-4,0,0],[5e-4,1e-3,0]) - and a very large one is refused for rounding noise; the precondition is not enforced for every size",
+                                f"{fn.qualname}: the {words[0]} guard '{ast.unparse(node)[:70]}' compares a quantity that scales with the shape's size to the power {a_} against one of power {b_} "
+                                "(a product of un-normalised vectors against the plain tolerance): a millimetre-sized shape that breaks the precondition by tens of degrees is accepted and built distorted"
+                                + (f" - {example} -" if example else " - Cylinder([0,0,0],[1e-4,0,0],[5e-4,1e-3,0]) -")
+                                + " and a very large one is refused for rounding noise; the precondition is not enforced for every size",
                                 node,
                                 key=f"guard#{k}",
                             )
@@ -325,7 +326,7 @@ def perpendicular_guards_rule(repo: Repo, prop: str, rule_id: str, module_prefix
                         visit(inner)
 
         visit(fn.node.body)
-    r.require(n >= floor, f"only {n} perpendicularity guards found")
+    r.require(n >= floor, f"only {n} {words[0]} guards found")
     return r
 
 
